@@ -906,6 +906,14 @@ Definition check (c : sexp) : sexp :=
                               ++ (match xvars with [] => [] | _ => ["list-or-object-variable-value-given"] end)
                               ++ (if (std =? 0) && match chosen_op ctxT aops opname with Some _ => true | None => false end
                                   then ["theorem-hypotheses-hold"] else [])
+                              ++ (match field1 "varshape" l with
+                                  | Some (SSym sh) =>
+                                      if String.eqb sh "map" then []
+                                      else [String.append "variables-" sh] ++
+                                           (if existsb (fun x => match raw_defs x with [] => false | _ => true end) raws
+                                            then ["no-variable-values-but-variables-declared"] else [])
+                                  | _ => []
+                                  end)
                               ++ (match field1 "timed" l with
                                   | Some b => match as_bool b with Some true => ["time-based-connection"] | _ => [] end
                                   | None => []
